@@ -136,6 +136,8 @@ func TestVerifC15Race(t *testing.T) {
 				bodies = append(bodies, b)
 			}
 			var wg sync.WaitGroup
+			var stuckMu sync.Mutex
+			stuck := ""
 			start := make(chan struct{})
 			for _, b := range bodies {
 				b := b
@@ -144,7 +146,11 @@ func TestVerifC15Race(t *testing.T) {
 					defer wg.Done()
 					<-start
 					for _, fn := range b {
-						mc.Guard(fn)
+						if p, msg, _ := mc.Guard(fn); p && strings.Contains(msg, "vsync: the lock is still held") {
+							stuckMu.Lock()
+							stuck = msg
+							stuckMu.Unlock()
+						}
 					}
 				}()
 			}
@@ -153,6 +159,11 @@ func TestVerifC15Race(t *testing.T) {
 			instrmetrics.VerifSetGatherer(false)
 			w.Res.Evaluations++
 			w.Res.Nontrivial++
+			if stuck != "" {
+				w.Report(mc.Violation{Property: "C15", Oracle: "stuck", Signature: "pipeline:free-running-request-stuck", Scenario: mn.name,
+					Trace: []string{fmt.Sprintf("setup=%v threads=%v (free-running, iteration %d)", mn.setup, mn.threads, it)}, Detail: stuck})
+				break // every further iteration of this menu would wait for the same lock again
+			}
 			for _, rep := range readReports() {
 				// signature: the innermost non-runtime frames of the two accesses
 				var frames []string
